@@ -19,6 +19,8 @@ package main
 // destination file (idempotent).  Every distinct crash state is also continued
 // the way a user recovers: locks removed, real `repair index` on the destination,
 // copy again - the destination must then hold complete copies of all snapshots.
+// Part 2 (sequential): copy, a source snapshot is rewritten (same original ID and metadata,
+// another tree, old one forgotten), copy again: the rewritten snapshot must arrive.
 
 import (
 	"context"
@@ -111,8 +113,9 @@ func TestVerif_C32(t *testing.T) {
 		byTree[s.tree.String()+s.time.UTC().String()] = s
 	}
 
+	curSrc := srcState // (part 2 swaps in a source in which one snapshot was rewritten)
 	copyOnce := func(ctx context.Context, scratch string, dst backend.Backend) error {
-		src := &gatebe.Backend{S: gatebe.NewStoreFrom(srcState, nil), Proc: "src", Conns: 3, AtomicReplace: true}
+		src := &gatebe.Backend{S: gatebe.NewStoreFrom(curSrc, nil), Proc: "src", Conns: 3, AtomicReplace: true}
 		gopts, dirs := verifGoptsRouted(t, scratch, map[string]backend.Backend{"dst": dst, "src": src}, "dst", oracle.Password)
 		return verifRun(t, ctx, gopts, func(ctx context.Context, gopts global.Options) error {
 			return runCopy(ctx, CopyOptions{SecondaryRepoOptions: global.SecondaryRepoOptions{Repo: dirs["src"], Password: oracle.Password}}, gopts, nil, gopts.Term)
@@ -311,6 +314,73 @@ func TestVerif_C32(t *testing.T) {
 		crashx.Explore(r, t, sc, bound, seen)
 	}
 	r.Extra("deviation_bound", bound)
+
+	// ---- part 2 (sequential history): a source snapshot is rewritten between two copies.  Everything is
+	// copied; then `rewrite --forget` replaces the second source snapshot by one with the same original ID,
+	// time, host, paths and tags but another tree (here: the tree of the first snapshot); copy runs again and
+	// must transfer the rewritten snapshot - "each copied snapshot in the destination has the same tree ...
+	// as in the source".
+	if r.Case("rewritten-in-source") {
+		dstStore := gatebe.NewStoreFrom(variants[0].base, nil)
+		dst := &gatebe.Backend{S: dstStore, Proc: "dst", Conns: 3, AtomicReplace: true}
+		if err := copyOnce(ctx, r.Scratch, dst); err != nil {
+			t.Fatalf("C32 part 2: first copy: %v", err)
+		}
+		src2 := gatebe.NewStoreFrom(srcState, nil)
+		sbe := &gatebe.Backend{S: src2, Proc: "rewrite", Conns: 3, AtomicReplace: true}
+		srepo, err := oracle.OpenOn(ctx, sbe, repository.Options{})
+		if err != nil {
+			t.Fatal(err)
+		}
+		sn, err := data.LoadSnapshot(ctx, srepo, srcs[1].id)
+		if err != nil {
+			t.Fatal(err)
+		}
+		orig := srcs[1].id
+		tree := srcs[0].tree
+		sn.Original = &orig
+		sn.Tree = &tree
+		nid, err := data.SaveSnapshot(ctx, srepo, sn)
+		if err != nil {
+			t.Fatal(err)
+		}
+		src2.Del("rewrite --forget", gatebe.FileKey{Type: backend.SnapshotFile, Name: orig.String()})
+		rewritten := verifC32Src{id: nid, tree: tree, content: srcs[0].content, time: srcs[1].time, tags: srcs[1].tags}
+		byTree[tree.String()+rewritten.time.UTC().String()] = rewritten
+		curSrc = src2.Snapshot()
+		cerr := copyOnce(ctx, r.Scratch, dst)
+		curSrc = srcState
+		r.Eval(1)
+		r.Trace(1)
+		r.NontrivialByConstruction(1)
+		var probs []string
+		if cerr != nil {
+			probs = append(probs, "copy after a source snapshot was rewritten failed: "+cerr.Error())
+		} else {
+			probs = dstOracle(ctx, dstStore.Snapshot(), false)
+			found := false
+			drepo, _, err := oracle.Open(ctx, dstStore.Snapshot(), oracle.Password)
+			if err == nil {
+				for k := range dstStore.Snapshot() {
+					if k.Type != backend.SnapshotFile {
+						continue
+					}
+					id, _ := restic.ParseID(k.Name)
+					if dsn, err := data.LoadSnapshot(ctx, drepo, id); err == nil && dsn.Tree.Equal(tree) && dsn.Time.Equal(rewritten.time) {
+						found = true
+					}
+				}
+			}
+			if !found {
+				probs = append(probs, fmt.Sprintf("snapshot: source snapshot %v (rewritten: original %v, same time/host/paths/tags, tree %v) has no copy with that tree in the destination after copy", nid.Str(), orig.Str(), tree.Str()))
+			}
+		}
+		if len(probs) > 0 {
+			r.Violation("rewritten-in-source", "C32|history|rewritten-in-source", strings.Join(probs, "\n"), nil)
+		} else {
+			r.Outcome("rewritten-in-source ok")
+		}
+	}
 }
 
 // TestVerifRace_C32 runs every scenario body free (gates answer at once, no oracle) under the race detector.
